@@ -84,7 +84,7 @@ func vfGenSeq(t *rapid.T, srv vfServer, minLen, maxLen int, extra []vfReq) ([]vf
 	var who []vfClient
 	for i := 0; i < n; i++ {
 		base := pool[rapid.IntRange(0, len(pool)-1).Draw(t, "pick")]
-		r := vfReq{Method: base.Method, Host: base.Host, Path: base.Path}
+		r := vfReq{Method: base.Method, Host: base.Host, Path: base.Path, BodyLen: base.BodyLen}
 		r.Headers = append(r.Headers, base.Headers...)
 		// vary the headers sometimes: same cache key, other header values
 		if rapid.IntRange(0, 3).Draw(t, "varyhdr") == 0 {
